@@ -83,6 +83,9 @@ SHAPES = {
     "stepped-int-4": I("x", 0, 6, None, step=2),
     "cond-8": C("m", ["p", "q"], {"p": I("u", 0, 1, I("v", 0, 1)), "q": F("w", -1.0, 0.5, 0.5)}),
     "none-bool-cat-4": C("t", [None, True, 1.5, "s"]),
+    "decimal-steps-5": C("kind", ["lin", "tree"], {"lin": F("x", 0.0, 0.2, 0.1), "tree": F("y", 0.2, 0.4, 0.2)}),
+    "decimal-step-4": F("x", 0.0, 0.3, 0.1),
+    "decimal-step-3": F("y", 0.2, 0.6, 0.2),
 }
 
 
@@ -197,6 +200,10 @@ def make_grid_body(grid_names, backends, max_splits):
         gname = sx.choose(grid_names, "grid")
         space = GRIDS[gname]
         kind = sx.choose(backends, "backend")
+        # a resumed run uses a new sampler object: grid ids stored in trials must denote the same points for every instance
+        assert GridSampler(space)._all_grids == GridSampler(space)._all_grids or all(
+            repr(a) == repr(b) for a, b in zip(GridSampler(space)._all_grids, GridSampler(space)._all_grids)), \
+            "two GridSampler instances with the default seed order the grid differently"
         names = sorted(space)
         import itertools
         points = [tuple(zip(names, vals)) for vals in itertools.product(*[space[n] for n in names])]
@@ -217,8 +224,8 @@ def make_grid_body(grid_names, backends, max_splits):
             return 1.0
 
         def new_sampler():
-            s = GridSampler(space, seed=0)
-            s._rng = Lazy(rng)
+            s = GridSampler(space)        # default seed: every instance must shuffle the grid identically (real RNG at construction)
+            s._rng = Lazy(rng)            # later draws (rng.choice over unvisited grid ids) are explorer choices
             return s
         storage = InMemoryStorage() if kind == "inmemory" else JournalStorage(ListBackend())
         study = optuna.create_study(sampler=new_sampler(), storage=storage)
@@ -265,13 +272,13 @@ def classify(c):
 def obligations(tier):
     q = tier == "quick"
     obs = []
-    small = ["flat-4", "deep-4", "single-root-3", "stepped-int-4", "none-bool-cat-4"]
+    small = ["flat-4", "deep-4", "single-root-3", "stepped-int-4", "none-bool-cat-4", "decimal-step-3", "decimal-step-4"]
     for s in small:
         obs.append(Obligation(f"bruteforce-{s}", make_bruteforce_body([s], 1 if q else 2), setup, CODE,
                               bounds=dict(shape=s, leaves=len(leaves(SHAPES[s])), splits=1 if q else 2, outcomes=3),
                               shard_depth=4, budget_s=900, classify=classify, require_reach=["finished"],
                               describe=f"brute force over program shape {s}; all rng draws, all leaf outcomes, all interruption points"))
-    for s in ["cond-5", "mixed-5"]:
+    for s in ["cond-5", "mixed-5", "decimal-steps-5"]:
         obs.append(Obligation(f"bruteforce-{s}", make_bruteforce_body([s], 1, outcomes=("complete", "fail") if q else ("complete", "fail", "pruned")), setup, CODE,
                               bounds=dict(shape=s, leaves=5, splits=1, outcomes=2 if q else 3),
                               shard_depth=5, budget_s=1500, classify=classify, require_reach=["finished"],
